@@ -27,6 +27,7 @@ from pyvc import heap as H, core
 from pyvc.heap import PENDING, RESULT, EXC, CANCELLED, st
 
 LEVEL = "other"
+STANDIN_ALWAYS_THOROUGH = True      # its large bound takes seconds: used at both tiers
 EXPLANATION = ("MIXED. gen.Runner proved against an abstract generator for unboundedly many resumptions (run()'s loop cut at an invariant): the generator "
                "is resumed only when the awaited future is done, with that future's result or exception (cancellation as CancelledError), never after "
                "it finished and never re-entrantly; its return value / exception settles the result future exactly once; pending yields are awaited by "
